@@ -59,7 +59,7 @@ func (in *c08Inst) Step(ev int) *vh.HViol {
 }
 
 func (in *c08Inst) Fingerprint() string {
-	return vh.FingerprintClip(in.maxD, in.k.lb.circuitBreaker)
+	return vh.FingerprintClip(in.maxD, in.k.lb.circuitBreaker) + in.k.novel()
 }
 
 // Probe is the recovery script: backends are healthy again; wait out the timeout; then a
